@@ -185,3 +185,63 @@ Section Spec.
     | CoFlush _ => True
     end.
 End Spec.
+
+(* ---------------- several sessions alive in one process ---------------- *)
+(* What the sending half of ONE session can be asked to do: a WriteMessage /
+   Flush (sop of Model.v) or releaseBuffers (Conn.ClearPendingSend). *)
+Inductive mop := MOp (o : sop) | MRelease.
+
+(* the WriteMessage / Flush calls among them *)
+Fixpoint strip (ops : list mop) : list sop :=
+  match ops with
+  | [] => []
+  | MOp o :: r => o :: strip r
+  | MRelease :: r => strip r
+  end.
+
+(* a schedule names the session of every step; the steps of session i, in order *)
+Definition proj (i : nat) (sched : list (nat * mop)) : list mop :=
+  map snd (filter (fun x => Nat.eqb (fst x) i) sched).
+
+Fixpoint upd_nth {A} (i : nat) (f : A -> A) (l : list A) : list A :=
+  match l, i with
+  | [], _ => []
+  | x :: r, O => f x :: r
+  | x :: r, S k => x :: upd_nth k f r
+  end.
+
+Section Multi.
+  Variables (K W : Type).
+  Variable enc : K -> N -> option K -> list N -> list W.
+  Variable hkdf : K -> option K -> K * K.
+
+  Definition srun_release (r : srun K W) : srun K W :=
+    mkRun K W (release_buffers K W (r_snd K W r)) (r_wire K W r) (r_accepted K W r)
+          (r_counted K W r) (r_used K W r).
+
+  Definition mrun_step (r : srun K W) (o : mop) : srun K W :=
+    match o with
+    | MOp o' => srun_step K W enc hkdf r o'
+    | MRelease => srun_release r
+    end.
+
+  (* the process: one run per session, nothing shared; a step touches the
+     session it names (a step naming no session does nothing) *)
+  Definition proc_step (st : list (srun K W)) (x : nat * mop) : list (srun K W) :=
+    upd_nth (fst x) (fun r => mrun_step r (snd x)) st.
+
+  Definition proc_run (st : list (srun K W)) (sched : list (nat * mop)) : list (srun K W) :=
+    fold_left proc_step sched st.
+
+  (* every release among ops happens with nothing buffered (it is redundant:
+     the no-op after a complete Flush, writeHandler's ClearPendingSend) *)
+  Fixpoint releases_idle (r : srun K W) (ops : list mop) : Prop :=
+    match ops with
+    | [] => True
+    | o :: rest =>
+      match o with
+      | MRelease => sn_hdr (r_snd K W r) = [] /\ sn_body (r_snd K W r) = []
+      | MOp _ => True
+      end /\ releases_idle (mrun_step r o) rest
+    end.
+End Multi.
